@@ -18,7 +18,7 @@ type Tier struct {
 // thoroughFactor: how many times the quick case lists the thorough tier runs, per
 // property (sized so that each thorough check takes minutes, not seconds, on 16 cores).
 var thoroughFactor = map[string]int{
-	"C01": 100, "C02": 60, "C04": 300, "C06": 100, "C08": 300, "C13": 300, "C14": 200, "C15": 150, "C11": 40,
+	"C01": 100, "C02": 60, "C04": 300, "C06": 100, "C08": 300, "C13": 300, "C14": 60, "C15": 40, "C11": 40,
 }
 
 func TierOf(name, prop string) Tier {
@@ -108,7 +108,7 @@ func allKindUnits(cfg *engine.Config, seed uint64, collCfgs []string, schemas in
 	return us
 }
 
-var fewColl = []string{"und", "en", "de+numeric", "sv"}
+var fewColl = []string{"und", "en", "de+numeric", "sv", "und+ignorecase"}
 
 func allCollNames() []string {
 	var out []string
@@ -164,6 +164,7 @@ func EngineUnits(prop string, t Tier, seed uint64) ([]engine.Unit, error) {
 		cfg.Queries = 10
 		cfg.CheckEvery = []int{2, 5, 10}
 		cfg.PrefixScope = true
+		cfg.Sweeps = 6 * t.F
 		var us []engine.Unit
 		alphaUnits(&us, cfg, seed)
 		ccfg := *cfg
@@ -203,7 +204,7 @@ func EngineUnits(prop string, t Tier, seed uint64) ([]engine.Unit, error) {
 		cfg.PoolMax = 80
 		cfg.Sweeps = 3 * t.F
 		cfg.CheckEvery = []int{1000}
-		us := allKindUnits(cfg, seed, append(append([]string{}, fewColl...), "und+ignorecase", "en+loose"), 6*t.F)
+		us := allKindUnits(cfg, seed, append(append([]string{}, fewColl...), "en+loose"), 6*t.F)
 		if t.F > 1 {
 			// long histories: the shape is checked after every operation on trees of thousands of keys
 			lc := *cfg
@@ -221,6 +222,7 @@ func EngineUnits(prop string, t Tier, seed uint64) ([]engine.Unit, error) {
 		cfg.Closed = false
 		cfg.CheckEvery = []int{15, 40}
 		cfg.FanHistories = 2 * t.F
+		cfg.BigHistories = 1 * t.F
 		return allKindUnits(cfg, seed, fewColl, 4*t.F), nil
 	case "C15":
 		cfg := base(prop, engine.MPurity, t)
